@@ -149,6 +149,7 @@ type PEval struct {
 	MaxPaths  int
 	Inline    func(*ssa.Function) bool // which callees to explore (default: library functions)
 	OnCall    func(ev *PEval, call *ssa.Call, callee *ssa.Function, args []AV) (AV, bool)
+	AssumeNonNil func(path string) bool // symbolic objects assumed non-nil
 	LoopOK    bool // when true, a revisited block ends the path with Unknown results instead of failing
 	paths     int
 	Err       error
@@ -887,7 +888,7 @@ func (ev *PEval) binop(op token.Token, x, y AV, t types.Type) AV {
 	}
 	// nil comparisons
 	if op == token.EQL || op == token.NEQ {
-		xn, yn := nilness(x), nilness(y)
+		xn, yn := ev.nn(x), ev.nn(y)
 		if xn != 0 && yn != 0 && (xn == 1 || yn == 1) {
 			eq := xn == 1 && yn == 1
 			if xn != yn {
@@ -900,6 +901,13 @@ func (ev *PEval) binop(op token.Token, x, y AV, t types.Type) AV {
 		}
 	}
 	return AV{}
+}
+
+func (ev *PEval) nn(a AV) int {
+	if a.K == KObj && ev.AssumeNonNil != nil && ev.AssumeNonNil(a.Path) {
+		return 2
+	}
+	return nilness(a)
 }
 
 // nilness: 1 = nil, 2 = non-nil, 0 = unknown.
